@@ -342,6 +342,8 @@ static void gen_zoo(const char *prop, int tier)
 			int o = add_obj(K_RAW, t);
 			if (o < 0) break;
 			G->obj[o].p[0] = P(60);
+			if (!strcmp(prop, "C09") && G->obj[o].p[0] && P(45))
+				G->obj[o].p[1] = P(50) ? 1 /* SIGHUP */ : 2 /* SIGINT */;
 		}
 	}
 
@@ -401,8 +403,14 @@ static void gen_zoo(const char *prop, int tier)
 				add_op(CTX_DRV, t, 0, OP_CONSUME, chans[R(nchan)], R(2), P(30) ? 65536 : 1 + R(5000), 0);
 			} else if (r < 90) {
 				int kk = P(60) ? K_EVENT : K_RAW;
+				if (!strcmp(prop, "C09"))
+					kk = P(85) ? K_RAW : K_EVENT;
 				n = objs_of(-1, kk, list);
-				if (n)
+				if (n && !strcmp(prop, "C09") && P(25))
+					add_op(CTX_DRV, t, 0, OP_RAISE, 1 + R(2), P(60) ? 0 : 1 + R(G->nthr), 0, 0);
+				else if (n && !strcmp(prop, "C09") && P(12))
+					add_op(CTX_DRV, t, 0, OP_BURST, list[R(n)], P(80) ? 2 + R(300) : (big ? 4000 + R(66000) : 4000 + R(5000)), 0, 0);
+				else if (n)
 					add_op(CTX_DRV, t, 0, OP_POST, list[R(n)], 0, 0, 0);
 			} else if (r < 94) {
 				add_op(CTX_DRV, t, 0, OP_CLOSE, chans[R(nchan)], R(2), 0, 0);
@@ -414,6 +422,11 @@ static void gen_zoo(const char *prop, int tier)
 		}
 	}
 
+	if (!strcmp(prop, "C09")) {
+		G->cfg.max_steps = 1200000;
+		if (P(40))
+			G->cfg.pipe_sz = 4096;
+	}
 	gen_absent_facilities(w.faults_pct);
 	gen_eintr(nloops, w.eintr_pct);
 	if (P(w.faults_pct))
